@@ -1,4 +1,26 @@
+//! E1 status scenarios: `scen_stat <c30|c32|c33> --seed S --shard i --nshards n --cases N --tier T --out F [--replay F] [--only-case N --trace]`
 #[path = "../../scen/src/common.rs"]
 mod common;
+mod c30;
+mod c32;
+mod c33;
+mod rec;
 
-fn main() {}
+use common::Shard;
+use vcore::Args;
+
+fn main() {
+    let args = Args::parse();
+    let scenario = args.pos.first().cloned().unwrap_or_default();
+    let shard = Shard::from_args(args);
+    let rep = match scenario.as_str() {
+        "c30" => c30::run(&shard),
+        "c32" => c32::run(&shard),
+        "c33" => c33::run(&shard),
+        other => {
+            eprintln!("unknown scenario {other}");
+            std::process::exit(3);
+        }
+    };
+    rep.write(&shard.out);
+}
